@@ -10,7 +10,8 @@ spec -> code: every level state of Keys.tla is rendered as a real posix registry
               witness history per dumped tag of TagCodec.tla is replayed on the real Tag (constructor, replace, trigger,
               dumps/loads and Release.dump/put + a fresh Directory); every vector of Packages.tla is replayed on real
               source trees / packages / installs
-code -> spec: seeded random sessions on the real Tag + posix registry are validated by specs/TraceTagCodec.tla
+code -> spec: seeded random sessions on the real Tag + posix registry are validated by specs/TraceTagCodec.tla; real listings
+              of random release levels (random PEP 440 versions beyond the lattice) are judged by specs/TraceKeys.tla
 """
 import collections
 import datetime
@@ -38,6 +39,7 @@ def scratch():
         base = '/dev/shm' if os.path.isdir('/dev/shm') and os.access('/dev/shm', os.W_OK) else os.getcwd()
         _SCRATCH.append(tempfile.mkdtemp(prefix='verif-c18-', dir=base))
     return _SCRATCH[0]
+
 
 _CTX = {}  # read-only context of the item functions below (inherited by the forked pool workers)
 
@@ -76,7 +78,7 @@ def pmap(func, items, nproc):
 
 # ------------------------------------------------------------------------------------------------ keys: concretisation
 PHASE = {1: 'a', 2: 'b', 3: 'rc'}
-ALPHA = {1: 'abc', 2: 'abd'}  # dictionary of alphabetic local segments (ordered as in Keys.tla)
+ALPHA = {1: 'abc', 2: 'abd', 3: 'b'}  # dictionary of alphabetic local segments (ordered as in Keys.tla)
 INVALID_RELEASE = ['abc', '1.0.x', '1..0', '1.0-', '1_0', '1.0+', '-1', '1.0a1b2', '.stage', '1.0.post1.post2']
 INVALID_GENERATION = ['abc', '1.5', '.stage', '1e3', '0x1', '1a', '1.0', 'one']
 # spellings of integers that python's int() accepts but nobody writes ('1_0', '+5', ' 3 ', unicode digits) are left
@@ -218,6 +220,7 @@ def _listing_item(st):
     listing, latest = real_level(lat, names, scratch())
     replay = {'kind': 'listing', 'mode': mode, 'names': names, 'expected': [lat.name({'v': c, 's': 1}, nspell) for c in st['listing']]}
     out = {'fail': None, 'replay': replay, 'listing': None if listing is None else [str(k) for k in listing]}
+    replay['observed'] = [out['listing'], None if latest is None else str(latest)]
     if listing is None:
         if st['listing']:
             out['fail'] = f'{mode} level {names}: not listable although it holds valid keys'
@@ -232,6 +235,83 @@ def _listing_item(st):
     if got_latest != want_latest:
         out['fail'] = f'{mode} level {names}: latest is {latest!r}, expected the maximum {replay["expected"][-1:]}'
     return out
+
+
+def random_version(rnd):
+    def seg():
+        return {'num': True, 'v': rnd.choice([0, 1, 10])} if rnd.random() < 0.5 else {'num': False, 'v': rnd.choice(list(ALPHA))}
+
+    pp = rnd.choice([0, 0, 1, 2, 3])
+    return {'e': rnd.choice([0, 0, 0, 1, 2]), 'r': [rnd.choice([0, 1, 2, 9, 10, 11]) for _ in range(rnd.randint(1, 4))], 'pp': pp,
+            'pn': rnd.choice([0, 1, 2, 10]) if pp else 0, 'post': rnd.choice([-1, -1, 0, 1, 2, 10]), 'dev': rnd.choice([-1, -1, 0, 1, 3, 11]),
+            'loc': [] if rnd.random() < 0.7 else [seg() for _ in range(rnd.randint(1, 2))]}
+
+
+def _random_level_item(item):
+    """List a level of randomly drawn versions (random spellings, some equal keys, some invalid names) with the real code."""
+    vers, names = item
+    lat = collections.namedtuple('L', 'mode')('release')
+    listing, latest = real_level(lat, names, scratch())
+    norms = [norm_version(v) for v in vers]
+
+    def index(key):
+        proj = project_release_key(key)
+        return next((i for i, n in enumerate(norms, start=1) if n == proj), 0)
+
+    return {'listing': [index(k) for k in listing or []], 'latest': 0 if latest is None else index(latest),
+            'text': None if listing is None else [str(k) for k in listing], 'latest_text': None if latest is None else str(latest)}
+
+
+def random_levels(chk, rnd):
+    """code -> spec: real listings of random release levels judged by TraceKeys.tla (Less / Eq of Keys.tla)."""
+    n = 400 if chk.quick else 5000
+    items = []
+    for _ in range(n):
+        vers = [random_version(rnd) for _ in range(rnd.randint(0, 7))]
+        for v in list(vers):
+            if rnd.random() < 0.25:  # an equal key under another name: more / fewer trailing zeros
+                twin = dict(v, r=v['r'] + [0] if rnd.random() < 0.5 or v['r'][-1] != 0 or len(v['r']) == 1 else v['r'][:-1])
+                vers.append(twin)
+        names, kept = [], []
+        for v in vers:
+            name = render_version(v, rnd.randint(1, 3))
+            if name not in names:
+                names.append(name)
+                kept.append(v)
+        extra = [x for x in INVALID_RELEASE if rnd.random() < 0.1]
+        items.append((kept, names + extra))
+    outs = pmap(_random_level_item, items, chk_procs(chk))
+    obs, reported = [], set()
+    for (vers, names), out in zip(items, outs):
+        if 0 in out['listing'] or (out['latest'] == 0 and vers):
+            reported.add(len(obs) + 1)
+            chk.fail(f'release level {names}: listed {out["text"]} / latest index {out["latest"]}: a key that was never written',
+                     {'kind': 'listing', 'mode': 'release', 'names': names, 'observed': [out['text'], out['latest_text']]})
+            out = dict(out, listing=[], latest=0)  # judged (and rejected) below unless the level is empty
+        obs.append({'vers': vers, 'listing': out['listing'], 'latest': out['latest']})
+    # binding self-test: a listing in the order of the textual form must be rejected
+    obs.append({'vers': [{'e': 0, 'r': [1, 9], 'pp': 0, 'pn': 0, 'post': -1, 'dev': -1, 'loc': []},
+                         {'e': 0, 'r': [1, 10], 'pp': 0, 'pn': 0, 'post': -1, 'dev': -1, 'loc': []}], 'listing': [2, 1], 'latest': 1})
+    path = common.write_json({'obs': obs}, 'c18-levels.json')
+    res = chk.tlc('TraceKeys', 'TraceKeys.cfg', workers=1, env={'TRACE_FILE': path}, coverage=False, timeout=900)
+    verdicts = {v[0]: v[1] for v in res.tuples('VERDICT')}
+    if len(verdicts) != len(obs) or -1 in verdicts.values():
+        raise tlc.MachineryError(f'TraceKeys: expected {len(obs)} verdicts, got {len(verdicts)}')
+    if 2 in verdicts.values():
+        raise tlc.MachineryError('TraceKeys: the two formulations of the PEP 440 order in Keys.tla disagree on an observed pair')
+    chk.selftest('random_level_textual_order_rejected', verdicts[len(obs)] == 0)
+    good = 0
+    for i, ((vers, names), out) in enumerate(zip(items, outs), start=1):
+        if verdicts[i] == 1:
+            good += 1
+        elif i not in reported:
+            chk.fail(f'release level with sub-directories {names}: listed as {out["text"]} - not the strictly ascending PEP 440 '
+                     f'sequence of the distinct keys / latest not the maximum',
+                     {'kind': 'listing', 'mode': 'release', 'names': names, 'observed': [out['text'], out['latest_text']]})
+    chk.validated(good)
+    big = max(range(len(items)), key=lambda i: len(outs[i]['listing']))
+    chk.sample({'random_release_level': items[big][1], 'listing': outs[big]['text']})
+    chk.extra['keys']['random_levels_validated'] = n
 
 
 def chk_procs(chk):
@@ -343,6 +423,7 @@ def keys_part(chk, rnd):
         chk.selftest(f'{label}_duplicated_listing_rejected', not listing_verdict(lat, multi['listing'], listing + listing[-1:]))
         chk.extra.setdefault('keys', {})[label] = {'lattice': lat.n, 'spellings': nspell, 'invalid_names': ninv, 'max_entries': maxkeys,
                                                   'level_states_replayed': len(states), 'ordered_pairs_compared': pairs}
+    random_levels(chk, rnd)
     chk.assume('release keys: the PEP 440 order is judged on a finite lattice of versions (every suffix class, epochs, local '
                'labels in the thorough tier) in 2-3 spellings each; spellings outside the rendered ones are not exercised')
     chk.assume('generation keys: spellings python int() happens to accept (underscores, signs, blanks, non-ASCII digits) are excluded, '
@@ -938,7 +1019,8 @@ def packages_part(chk, rnd):
     from forml import project
     tmp = os.getcwd()
     cfg = os.path.join(tmp, 'packages.cfg')
-    nn, nver, pkgs, priors = (1, 1, '2', '"none", "older", "olderzip"') if chk.quick else (2, 3, '1, 2', '"none", "older", "olderzip", "same"')
+    # (names and versions matter to the manifest alone: their full product is written and read back further below)
+    nn, nver, pkgs, priors = (1, 1, '2', '"none", "older", "olderzip"') if chk.quick else (1, 2, '1, 2', '"none", "older", "olderzip", "same"')
     with open(cfg, 'w') as fh:
         fh.write(f'SPECIFICATION Spec\nCONSTANTS NNames = {nn}\n NVersions = {nver}\n Pkgs = {{{pkgs}}}\n Refs = {{0, 1, 2}}\n'
                  f' Trees = {{"all", "noeval"}}\n Datas = {{TRUE, FALSE}}\n Priors = {{{priors}}}\n'
@@ -1038,12 +1120,11 @@ def _replay(chk, path):
         print('now:', out)
         return 0 if out['status'] != 'fail' else 1
     if kind == 'listing':
-        from forml.io import asset
         lat = collections.namedtuple('L', 'mode')(rep['mode'])
         listing, latest = real_level(lat, rep['names'], tmp)
-        print('now: listing', None if listing is None else [str(k) for k in listing], 'latest', latest, 'expected', rep['expected'])
-        Key = asset.Release.Key if rep['mode'] == 'release' else asset.Generation.Key
-        return 0 if [Key(x) for x in rep['expected']] == (listing or []) and len(set(listing or [])) == len(listing or []) else 1
+        now = [None if listing is None else [str(k) for k in listing], None if latest is None else str(latest)]
+        print('now:', now, 'recorded:', rep['observed'], 'expected listing:', rep.get('expected', '(judged by TraceKeys.tla)'))
+        return 1 if now == rep['observed'] else 0
     if kind == 'order':
         from forml.io import asset
         Key = asset.Release.Key if rep['mode'] == 'release' else asset.Generation.Key
